@@ -1,0 +1,76 @@
+//go:build verif
+
+// Machine-checked contracts for package lexer. Comment-only file read by /verif/bin/evyvc
+// (see /verif/DESIGN.md section 2.2).
+
+package lexer
+
+// at(l, p): the rune at position p, 0 past the end (what lookAt returns).
+//@ pure at(l *Lexer, p int) rune = ite(0 <= p && p < len(l.input), l.input[p], 0)
+// nlCount(l, p): number of newlines strictly before position p; lastNL(l, p): position of the last
+// newline strictly before p, or -1.
+//@ pure nlCount(l *Lexer, p int) int = ite(p <= 0, 0, nlCount(l, p-1) + ite(at(l, p-1) == '\n', 1, 0))
+//@ pure lastNL(l *Lexer, p int) int = ite(p <= 0, -1, ite(at(l, p-1) == '\n', p-1, lastNL(l, p-1)))
+// Lx: the lexer's coordinates describe its position: cur is the rune at pos, line is 1 plus the
+// number of newlines before pos, col is the distance from the last newline.
+//@ pure Lx(l *Lexer) bool = -1 <= l.pos && l.pos <= len(l.input)+1 && (l.pos >= 0 ==> l.cur == at(l, l.pos)) && (l.pos == -1 ==> l.cur != '\n') && l.line == 1+nlCount(l, l.pos) && l.col == l.pos-lastNL(l, l.pos)
+
+//@ func (l *Lexer) lookAt(pos int) (r rune)
+//@   props C03
+//@   requires pos >= -1
+//@   requires pos >= 0
+//@   ensures[C03 total] r == at(l, pos)
+//@   modifies nothing
+
+//@ func (l *Lexer) advance()
+//@   props C03
+//@   requires Lx(l) && l.pos <= len(l.input)
+//@   ensures[C03 position] Lx(l) && l.pos == old(l.pos)+1
+//@   ensures[C03 same-input] l.input == old(l.input)
+//@   modifies l.pos, l.cur, l.line, l.col
+
+//@ func (l *Lexer) consumeHorizontalWhitespace()
+//@   props C03
+//@   requires Lx(l) && l.pos < len(l.input)
+//@   ensures[C03 position] Lx(l) && old(l.pos) <= l.pos && l.pos < len(l.input)
+//@   ensures[C03 same-input] l.input == old(l.input)
+//@   modifies l.pos, l.cur, l.line, l.col
+//@   loop 1 invariant Lx(l) && old(l.pos) <= l.pos && l.pos < len(l.input) && l.input == old(l.input) && pr == at(l, l.pos+1)
+//@   loop 1 modifies l.pos, l.cur, l.line, l.col
+//@   loop 1 decreases len(l.input) - l.pos
+
+//@ func (l *Lexer) readString() (s string, err error)
+//@   props C03
+//@   requires Lx(l) && 0 <= l.pos && l.pos < len(l.input)
+//@   ensures[C03 position] Lx(l) && old(l.pos) <= l.pos && l.pos < len(l.input)
+//@   ensures[C03 same-input] l.input == old(l.input)
+//@   modifies l.pos, l.cur, l.line, l.col
+//@   loop 1 invariant Lx(l) && old(l.pos) <= l.pos && l.pos < len(l.input) && l.input == old(l.input)
+//@   loop 1 modifies l.pos, l.cur, l.line, l.col
+//@   loop 1 decreases len(l.input) - l.pos
+
+//@ func (l *Lexer) readWhile(pred func(rune) bool) (s string)
+//@   props C03
+//@   opt purecalls pred
+//@   requires Lx(l) && 0 <= l.pos && l.pos < len(l.input)
+//@   ensures[C03 position] Lx(l) && old(l.pos) <= l.pos && l.pos < len(l.input)
+//@   ensures[C03 same-input] l.input == old(l.input)
+//@   modifies l.pos, l.cur, l.line, l.col
+//@   loop 1 invariant Lx(l) && old(l.pos) <= l.pos && l.pos < len(l.input) && l.input == old(l.input) && pr == at(l, l.pos+1)
+//@   loop 1 modifies l.pos, l.cur, l.line, l.col
+
+//@ func isDigit(r rune) (b bool)
+//@   props C03 C13
+//@   ensures[C13 ascii-digit] b == (r >= '0' && r <= '9')
+//@   modifies nothing
+
+//@ func (l *Lexer) Next() (tok *Token)
+//@   props C03
+//@   requires Lx(l) && l.pos <= len(l.input)
+//@   ensures[C03 invariant] Lx(l)
+//@   ensures[C03 token] tok != nil && fresh(tok)
+//@   ensures[C03 located] tok.Offset == old(l.pos)+1 && tok.Line == 1+nlCount(l, tok.Offset) && tok.Col == tok.Offset-lastNL(l, tok.Offset)
+//@   ensures[C03 progress] l.pos >= tok.Offset
+//@   ensures[C03 eof] (tok.Type == EOF) == (tok.Offset >= len(l.input) || at(l, tok.Offset) == 0)
+//@   ensures[C03 same-input] l.input == old(l.input)
+//@   modifies l.pos, l.cur, l.line, l.col
